@@ -74,10 +74,15 @@ def check_routing(ctx, cirq, nx, n):
         router = cirq.RouteCQC(g)
         mapper = None
         if rng.random() < 0.4:
-            pl = rng.sample(phys, len(used))
+            # a hard-coded initial mapping may also place logical qubits the circuit does not use (they can be swapped through, and the
+            # reported permutation has to account for them)
+            spect = [cirq.NamedQubit(f's{j}') for j in range(rng.choice([0, 0, 1, 2]))][: len(phys) - len(used)]
+            pl = rng.sample(phys, len(used) + len(spect))
             # a hard-coded initial mapping must place the logical qubits on a connected part of the device
             if nx.is_connected(g.subgraph(pl)):
-                mapper = cirq.HardCodedInitialMapper(dict(zip(used, pl)))
+                mapper = cirq.HardCodedInitialMapper(dict(zip(used + spect, pl)))
+                if spect:
+                    ctx.count('route_mapper', 'hard-coded+spectators')
         try:
             routed, init_map, swap_map = router.route_circuit(circuit, lookahead_radius=rng.choice([1, 3, 8]), tag_inserted_swaps=True, initial_mapper=mapper)
         except ValueError as e:
@@ -131,7 +136,7 @@ def check_routing(ctx, cirq, nx, n):
         final_l2p = out['l2p']
         want_swap = {phys[l2p_full[j]]: phys[final_l2p[j]] for j in range(len(lq))}
         got_swap = {k: v for k, v in swap_map.items() if k in want_swap}
-        if got_swap != want_swap:
+        if got_swap != want_swap or len(set(swap_map.values())) != len(swap_map) or set(swap_map.values()) != set(swap_map):
             ctx.report_witness('route:swap-map', 'the reported swap map is not the permutation accumulated by the inserted SWAPs', dict(rep, impl_out=[{repr(k): repr(v) for k, v in swap_map.items()}], spec_out=[{repr(k): repr(v) for k, v in want_swap.items()}]))
             continue
         # 4. numerically: routed circuit followed by the inverse permutation = original on its initial places
@@ -203,6 +208,17 @@ def known_gate_circuits(cirq, gs, tier):
                 out.append((name, qs, cirq.Circuit(ge.on(qs[0], qs[1]))))
                 if tier != 'quick' or (e == -1 and g in (cirq.ISWAP, cirq.SWAP)):
                     out.append((name, qs, cirq.Circuit(cirq.CZ(qs[1], qs[2]), ge.on(qs[0], qs[1]), cirq.CZ(qs[1], qs[2]))))
+        # named single-qubit gates standing alone (alone in the circuit, on a qubit next to an unrelated two-qubit gate, as a one-operation
+        # sub-circuit): compilers keep exact-gate fast paths for them that merging usually hides
+        ones = [cirq.H, cirq.X, cirq.Y, cirq.Z, cirq.S, cirq.T, cirq.H ** 0.5, cirq.X ** 0.5, cirq.Y ** -0.5, cirq.S ** -1, cirq.HPowGate(exponent=1, global_shift=0.25), cirq.rx(np.pi), cirq.ry(np.pi / 2)]
+        if tier == 'quick':
+            ones = [cirq.H] + ones[1 + (len(name) % 2)::2]
+        for g1 in ones:
+            out.append((name, qs, cirq.Circuit(g1.on(qs[0]))))
+            out.append((name, qs, cirq.Circuit(cirq.CZ(qs[1], qs[2]), g1.on(qs[0]))))
+            if tier != 'quick' or g1 == cirq.H:
+                out.append((name, qs, cirq.Circuit(cirq.CircuitOperation(cirq.FrozenCircuit(g1.on(qs[0]))), cirq.CZ(qs[1], qs[2]))))
+                out.append((name, qs, cirq.Circuit(g1.on(qs[0]), cirq.CZ(qs[0], qs[1]), g1.on(qs[2]))))
         # one-operation sub-circuits that repeat or remap their body, next to a two-qubit gate
         for two in (cirq.XX ** 0.5, cirq.CZ):
             body = cirq.FrozenCircuit(cirq.X(qs[0]) ** 0.5)
